@@ -3,6 +3,6 @@ CONSTANTS
   MaxLen = 4
   Exits = {0, 1, 3}
   Modes = {"normal", "try", "trypipe"}
-INVARIANT Agree
+INVARIANTS Agree Released
 POSTCONDITION Emit
 CHECK_DEADLOCK FALSE
